@@ -369,6 +369,41 @@ def many_parameters_case(case):
     return n
 
 
+class PercentGrid(dict):
+    """A declaration kept as a dict subclass: stores percentages and hands out fractions, iterates its keys alphabetically
+    (or in reverse).  What it hands out through d[key] for the keys it iterates over is what it declares."""
+    reverse = False
+
+    def __getitem__(self, key):
+        values = super().__getitem__(key)
+        return [v / 100 for v in values] if isinstance(values, list) else values
+
+    def __iter__(self):
+        return iter(sorted(super().keys(), reverse=self.reverse))
+
+
+def mapping_case(case):
+    """A declaration handed over as a dict subclass / an OrderedDict / a read-only mapping proxy builds what the equivalent
+    plain dict builds."""
+    import collections
+    import types
+    stored = {'uptake': [10, 50, 90], 'size': 2, 'decay': [25, 75], 'label': 'xy'}
+    if case['how'] in ('percent', 'percent_reversed'):
+        src = PercentGrid(stored)
+        src.reverse = case['how'] == 'percent_reversed'
+    elif case['how'] == 'ordered':
+        src = collections.OrderedDict(stored)
+        src.move_to_end('uptake')
+    else:
+        src = types.MappingProxyType(dict(stored))
+    plain = {k: src[k] for k in src}
+    got, want = ParameterList(src).build(), ParameterList(plain).build()
+    if got != want or [list(g) for g in got] != [list(w_) for w_ in want]:
+        raise Violation(f'a declaration given as {type(src).__name__} ({case["how"]}) builds something else than the equivalent '
+                        f'plain dict {plain}', expected=want[:4], observed=got[:4])
+    return len(got)
+
+
 def wide_case(case):
     """n declared parameters of which only those at the given positions have more than one value: whichever positions
     those are, the earlier-declared one varies slowest."""
@@ -472,6 +507,14 @@ def run(ctx):
         except Violation as v:
             ctx.report(case, v)
             return
+    for how in ('percent', 'percent_reversed', 'ordered', 'proxy'):
+        case = {'leg': 'mapping', 'how': how}
+        ctx.traces += 1
+        try:
+            ctx.transitions += hbfs._guard(mapping_case, case)
+        except Violation as v:
+            ctx.report(case, v)
+            return
     ctx.leg('wide', cases=nw, note='9..33 declared parameters, every pair (n <= 12) / triple (n <= 10) of positions multi-valued')
     kinds = [k for k in VALUES if k != 'empty']
     nr = 0
@@ -532,6 +575,9 @@ def run(ctx):
 def replay(case):
     if case['leg'] == 'wide':
         hbfs._guard(wide_case, case)
+        return
+    if case['leg'] == 'mapping':
+        hbfs._guard(mapping_case, case)
         return
     if case['leg'] == 'redeclare':
         hbfs._guard(redeclare_case, case)
